@@ -66,8 +66,19 @@ class SequenceDataSource(types.Recoverable, Iterable[_T]):
     for i in range(shard_index + 1):
       adjusted_interval = interval + 1 if i < remainder else interval
       start += adjusted_interval if i < shard_index else 0
+    # The unsharded root is not a level of its own: `from_state` rebuilds the
+    # outermost recorded level by sharding a new root, which must give the same
+    # state again instead of a state that is one level deeper.
+    is_root = (
+        self._start == 0
+        and self._end is None
+        and self._shard_state == ShardConfig()
+    )
     shard_state = ShardConfig(
-        shard_index, num_shards, offset, parent=self._shard_state
+        shard_index,
+        num_shards,
+        offset,
+        parent=None if is_root else self._shard_state,
     )
     return dc.replace(
         self,
